@@ -96,13 +96,17 @@ CHECKS.update({
  "C13": dict(
     text="Theorems: the backward search, paths, the Bellman operator and every finite-horizon value are equivariant under renaming states "
          "(any bijection) and reordering transitions (any permutation of each row). End-to-end equality within tolerance is not a theorem "
-         "(sweep order; K1-C13) and is asserted by the metamorphic check: implementation on g vs on renamed g, exact on the exact family.",
+         "(sweep order; K1-C13); proved in conditional form (C13_reports_within_tolerance: under an absorption-time certificate for each description "
+         "the two reports differ by at most threshold * certificate) and asserted by the metamorphic check: implementation on g vs on renamed g, exact on the exact family.",
     design="5/C13", technique="Coq proof (equivariance of search and Bellman operator) + metamorphic differential testing of the implementation"),
  "C14": dict(
     text="Theorems (any instance): one reward step makes both diagnostics follow the successor picked by the reward step (Player 1/2), "
          "weighted sums for probabilistic states, Player 2's reward diagnostic ranges over its 6-digit reachability strategy, seeded from "
-         "reachability. Correspondence bit-exact on both diagnostic vectors; induced-chain oracle on guarded families.",
-    design="5/C14", technique="Coq proof (fold invariants of the reward step) + bit-exact differential correspondence + induced-chain oracle"),
+         "reachability. The end-to-end equality with the induced chain is REFUTED on the model (C14_stale_diagnostic_refuted, known finding K5: a "
+         "player state whose final strategy never reaches a final state keeps a stale value); the check prints it as KNOWN-FINDING and the "
+         "oracle skips exactly the states whose induced chain passes through such a state. Correspondence bit-exact on both diagnostic "
+         "vectors; induced-chain oracle on guarded families.",
+    design="5/C14 and Appendix D.4/E", technique="Coq proof (fold invariants of the reward step) + bit-exact differential correspondence + induced-chain oracle"),
 })
 CHECKS.update({
  "C08": dict(
